@@ -40,12 +40,17 @@ class Pattern(Leaf):
         _ = lean
         pat = self.pattern or ""
         # multiline patterns are OK
-        pat = trim(pat)
-        if '/' in pat:
+        if '\n' in pat:
+            pat = trim(pat)
+        if '/' not in pat:
+            regex = f'/{pat}/'
+        elif '"' not in pat:
+            regex = f'?"{pat}"'
+        elif "'" not in pat:
+            regex = f"?'{pat}'"
+        else:
             newpat = pat.replace('"', r'\"')
             regex = f'?"{newpat}"'
-        else:
-            regex = f'/{pat}/'
         return regex
 
     @cached_property
